@@ -163,8 +163,11 @@ def run_case(spec):
         return r, t, Lx
     T3 = L3 = None
     try:
+        neg = idx - nq                                     # the same pairs addressed with negative indices (X[indices] semantics)
+        mixed = np.where((np.arange(idx.size).reshape(idx.shape) % 3) == 0, neg, idx)
         for vname, pre, ind in (('ndarray', Q, idx), ('nested list', Q.tolist(), idx.astype(np.int8)),
-                                ('callable', (lambda ids: Q[ids]), idx.tolist())):
+                                ('callable', (lambda ids: Q[ids]), idx.tolist()),
+                                ('ndarray, negative indices', Q, mixed), ('nested list, negative indices', Q.tolist(), neg)):
             e2 = zoo.make(name, ds, **dict(over, preprocessor=pre))
             e2.fit(*zoo.train_args(name, ds))
             r2, t2, L2 = own_refs(e2)
@@ -210,7 +213,9 @@ def run_case(spec):
         Tri = np.array([[float(x) for x in row] for row in exact.matmul_exact([exact.fvec(q) for q in Qi], exact.transpose(Lf))])
         cmp('transform(int64 array)', Ti, 8.0 * (d + 2) * exact.EPS * np.abs(Qi).dot(np.abs(L).T) + 1e-300, Tri, 'transform')
     # M = L^T L entrywise, symmetric, PSD; quadratic form with the returned M
-    M = est.get_mahalanobis_matrix()
+    M_first = est.get_mahalanobis_matrix()
+    M_first[...] = -1.0                      # the caller overwrites what it was handed ...
+    M = est.get_mahalanobis_matrix()        # ... and asks again: must still be L^T L
     if M.shape != (d, d):
         viol.append(V(site, 'M_shape', 'get_mahalanobis_matrix returned shape %s' % (M.shape,), tr))
     else:
